@@ -163,7 +163,7 @@ func runIndex(o Opts, mode string) error {
 		nScen *= 6
 	}
 	for s := 0; s < nScen; s++ {
-		wo := WorldOpts{Universe: 3 + rng.Intn(5)}
+		wo := WorldOpts{Universe: 3 + rng.Intn(5), Poison: true}
 		switch rng.Intn(10) {
 		case 0, 1:
 			wo.DirKind = "mem"
